@@ -157,12 +157,25 @@ class MapEngine:
             # populated group: must be refused and leave the group alone
             ops.append({"op": "append_refused",
                         "target": rng.randrange(len(files)),
+                        "how": rng.choice(["append", "append", "add",
+                                           "iadd"]),
                         "innate_tip": rng.random() < 0.3})
         maps = [i for i, f in enumerate(files) if f["kind"] == "synmap" or (
             f["kind"] == "recorded" and "map" in f["file"]
             and "map0d" not in f["file"])]
+        if rng.random() < 0.3:
+            # first another map of a hand-assembled group (a subset of the
+            # curves, in another order), read once
+            ops.append({"op": "qmap", "file": rng.choice(maps),
+                        "via": "assembled", "select": rng.sample(
+                            range(12), rng.randint(2, 6))})
+            ops.append({"op": "fit_all", "kw": {}})
+            ops.append({"op": "get_qmap",
+                        "feature": "fit: Young's modulus"})
         ops.append({"op": "qmap", "file": rng.choice(maps),
-                    "via": rng.choice(["path", "group", "load_group"]),
+                    "via": rng.choice(["path", "group", "load_group",
+                                       "assembled"]),
+                    "select": rng.sample(range(12), rng.randint(2, 6)),
                     "callback": rng.random() < 0.5})
         while len(ops) < nops + 2:
             r = rng.random()
@@ -214,6 +227,8 @@ class MapEngine:
         return {"config": {"files": files, "subdir": subdir}, "ops": ops}
 
     # ------------------------------------------------------------ execute
+    track_history = True
+
     def execute(self, run):
         seams.install_curve_seams()
         seams.install_lmfit_determinism()
@@ -221,6 +236,12 @@ class MapEngine:
         import logging
         logging.disable(logging.CRITICAL)   # afmformats logs reader errors
         try:
+            if run.get("history") and not run.get("_child"):
+                # replay of a finding that depends on what this worker had
+                # executed before (process-wide caches)
+                for h in run["history"]:
+                    with core.Scratch("c20") as scratch:
+                        self._execute(h, scratch)
             with core.Scratch("c20") as scratch:
                 return self._execute(run, scratch)
         finally:
@@ -557,6 +578,35 @@ class MapEngine:
                                 "force-distance": nanite.Indentation})[0]
                         feats["innate_tip"] = bool(op.get("innate_tip"))
                         oracle_checks += 1
+                        how = op.get("how", "append")
+                        feats["how"] = how
+                        if how in ("add", "iadd") and \
+                                not op.get("innate_tip"):
+                            # the other ways to put a curve into a group:
+                            # whatever they return, no IndentationGroup may
+                            # hold the uncalibrated curve afterwards
+                            try:
+                                if how == "add":
+                                    g2 = g + [cand]
+                                else:
+                                    g2 = g
+                                    g2 += [cand]
+                            except _caught():
+                                g2 = g
+                            held = [x for x in (g, g2) if isinstance(
+                                x, nanite.IndentationGroup)
+                                and any(y is cand for y in x)]
+                            probes[f"uncalibrated curve offered via {how}"] \
+                                += 1
+                            if held:
+                                violation = viol(
+                                    "L1", "accepted-without-spring-constant",
+                                    feats, f"after 'group {how} [curve]' an "
+                                    f"IndentationGroup holds a curve with "
+                                    f"neither spring constant nor tip "
+                                    f"position", i)
+                                break
+                            continue
                         try:
                             g.append(cand)
                             raised = False
@@ -592,14 +642,32 @@ class MapEngine:
                             qm = nanite.QMap(p, callback=cb.append
                                              if cb is not None else None)
                         elif op["via"] == "group":
-                            qm = nanite.QMap(nanite.IndentationGroup(p))
+                            own = nanite.IndentationGroup(p)
+                            qm = nanite.QMap(own)
+                        elif op["via"] == "assembled":
+                            # the caller assembles a group by hand
+                            src_ = nanite.IndentationGroup(p)
+                            own = nanite.IndentationGroup()
+                            seen_ = []
+                            for j_ in op.get("select", [0, 1]):
+                                j_ = j_ % len(src_)
+                                if j_ not in seen_:
+                                    seen_.append(j_)
+                                    own.append(src_[j_])
+                            qm = nanite.QMap(own)
                         else:
-                            qm = nanite.QMap(nanite.load_group(p))
-                        grp = qm.group
+                            own = nanite.load_group(p)
+                            qm = nanite.QMap(own)
+                        # the caller goes on working with its own group
+                        # object (the map shows that group)
+                        grp = qm.group if op["via"] == "path" else own
                         ref = {k: {"rating": None, "stale": False,
                                    "raw_prep": core.digest([None, None])}
                                for k in range(len(grp))}
-                        v = check_load(list(grp), [p], None,
+                        # (a hand-assembled subset is the caller's doing,
+                        # not the loader's)
+                        v = None if op["via"] == "assembled" else \
+                            check_load(list(grp), [p], None,
                                        cb if op["via"] == "path" else None,
                                        feats, i)
                         oracle_checks += 1
@@ -711,6 +779,12 @@ class MapEngine:
             for k, d in enumerate(grp):
                 ix = int(d.metadata["grid index x"])
                 iy = int(d.metadata["grid index y"])
+                if not (0 <= ix < int(nx) and 0 <= iy < int(ny)):
+                    violation = viol(
+                        "L2", "shape", feats,
+                        f"map shape {(int(ny), int(nx))} has no pixel for "
+                        f"curve {k} at grid index (y={iy}, x={ix})", i)
+                    break
                 fp = d.fit_properties
                 if feat.startswith("fit: Young") or feat.endswith("point"):
                     if fp.get("success", False) and "params_fitted" in fp:
@@ -736,6 +810,8 @@ class MapEngine:
                         else:
                             alt[iy, ix] = r["rating"]
                         probes["pixel with rating"] += 1
+            if violation:
+                break
             ok1 = digest_array(got) == digest_array(exp) and \
                 nwarn == exp_warn
             ok2 = digest_array(got) == digest_array(alt) and \
